@@ -558,6 +558,43 @@ SPECS += [
                         lambda n: ast.Constant(value=n.value.replace("{", "").replace("}", ""))), ["R14.12"]),
 ]
 
+# round 9 (refactoring slips)
+SPECS += [
+    ("C01", "init-answered-for-instances", "rope/base/evaluate.py",
+     replace_expr_where("ScopeNameFinder.get_enclosing_function", _is("isinstance(pyobject, pyobjects.AbstractClass) and '__init__' in pyobject"),
+                        _expr("'__init__' in pyobject")), ["R01.11"]),
+    ("C02", "init-answered-for-instances", "rope/base/evaluate.py",
+     replace_expr_where("ScopeNameFinder.get_enclosing_function", _is("isinstance(pyobject, pyobjects.AbstractClass) and '__init__' in pyobject"),
+                        _expr("'__init__' in pyobject")), ["R02.15"]),
+    ("C04", "cut-offsets-from-original-lines", "rope/refactor/inline.py",
+     replace_expr_where("_inline_variable", _is("codeanalyze.SourceLinesAdapter(changed_source)"), _expr("pymodule.lines")), ["R04.6"]),
+    ("C05", "filter-folder-of-destination", "rope/refactor/move.py",
+     replace_expr_where("MoveGlobal._calculate_changes", _is("self._import_filter_in(file_.parent)"), _expr("self._import_filter_in(dest.parent)")), ["R05.17"]),
+    ("C06", "header-read-from-blanked-text", "rope/base/worder.py",
+     replace_expr_where("_RealFinder.get_function_and_args_in_header", _is("self.raw[offset:rparens + 1]"), _expr("self.code[offset:rparens + 1]")), ["R06.9"]),
+    ("C14", "primary-read-from-blanked-text", "rope/base/worder.py",
+     replace_expr_where("_RealFinder.get_primary_at", _is("self.raw[start:end]"), _expr("self.code[start:end]")), ["R14.14"]),
+    ("C08", "pattern-search-resumes-after-match", "rope/refactor/patchedast.py",
+     replace_expr_where("_Source._consume_pattern", _is("repattern.search(self.source, self.offset, end)"), _expr("repattern.search(self.source, end - 1, end)")), ["R08.10"]),
+    ("C11", "interesting-only-if-nothing-ignored", "rope/base/history.py",
+     replace_expr_where("History._is_change_interesting", lambda n: isinstance(n, ast.UnaryOp) and isinstance(n.op, ast.Not) and "is_ignored" in ast.unparse(n),
+                        lambda n: n.operand), ["R11.11"]),
+    ("C12", "folder-flag-ignored-on-reload", "rope/base/change.py",
+     replace_expr_where("DataToChange.makeCreateResource", _is("self.project.get_folder(path)"), _expr("self.project.get_file(path)")), ["R12.13"]),
+    ("C15", "with-header-visited-only-with-as", "rope/base/pyobjectsdef.py", None, ["R15.14"]),
+    ("C17", "factory-after-first-method", "rope/refactor/introduce_factory.py",
+     replace_expr_where("IntroduceFactory._get_insertion_offset", _is("class_scope.get_scopes()[-1]"), _expr("class_scope.get_scopes()[0]")), ["R17.9"]),
+    ("C18", "first-record-of-empty-list", "rope/base/project.py",
+     replace_expr_where("_DataFiles.read_data", _is("len(result) == 1"), _expr("len(result) <= 1")), ["R18.4"]),
+    ("C19", "multi-statement-pattern-as-expression", "rope/refactor/similarfinder.py",
+     replace_expr_where("RawSimilarFinder._create_pattern", _is("len(nodes) == 1 and isinstance(nodes[0], ast.Expr)"), _expr("isinstance(nodes[0], ast.Expr)")), ["R19.10"]),
+    ("C13", "folder-itself-not-examined", "rope/base/resourceobserver.py", None, ["R13.12"]),
+    ("C07", "gap-refused-only-if-all-foreign", "rope/refactor/importutils/__init__.py", None, ["R07.15"]),
+    ("C03", "conditional-write-skips-loop-check", "rope/refactor/extract.py", None, ["R03.14"]),
+    ("C14", "blank-skip-inside-open-line", "rope/base/codeanalyze.py", None, ["R14.15"]),
+]
+SPECS = [s for s in SPECS if s[3] is not None]  # (entries without an AST edit are covered by their kept seed)
+
 SPECS = [s for s in SPECS if s[1] != "tab-to-four-spaces"]
 
 
